@@ -24,6 +24,7 @@ import (
 	"bytes"
 	"context"
 	"encoding/json"
+	"errors"
 	"fmt"
 	"testing"
 
@@ -67,26 +68,94 @@ func openFindings() map[string]bool {
 	return open
 }
 
-// render asks vuego for the output of tpl over data through one of two entry points; the file
-// entry point serves the page and the component from an in-memory file system.
-func render(tpl string, data any, entry string) (string, error) {
+// testFuncs are registered on every engine: boom always fails (the late failure of the
+// after-failure dimension), nok negates a bool and fails for the sentinel "ERR".
+var testFuncs = vuego.FuncMap{
+	"boom": func(v any) (any, error) { return nil, errors.New("boom: injected failure") },
+	"nok": func(v any) (bool, error) {
+		if v == "ERR" {
+			return false, errors.New("nok: no value")
+		}
+		b, _ := v.(bool)
+		return !b, nil
+	},
+}
+
+// newEngine builds a fresh engine for an entry point; the file entry point serves the page, the
+// components and the slot components from an in-memory file system.
+func newEngine(tpl, entry string) vuego.Template {
+	if entry != "file" {
+		return vuego.New(vuego.WithFuncs(testFuncs))
+	}
+	files := map[string]string{"page.vuego": tpl, "comp.vuego": componentSource}
+	for name, src := range slotComponents {
+		files[name] = src
+	}
+	for name, src := range compFiles {
+		files[name] = src
+	}
+	return vuego.NewFS(memfs.FromMap(files), vuego.WithComponents(), vuego.WithFuncs(testFuncs))
+}
+
+// pageOf returns the Template object the real call is made on.
+func pageOf(engine vuego.Template, entry string, data any) vuego.Template {
+	if entry == "file" {
+		return engine.Load("page.vuego").Fill(data)
+	}
+	return engine.New().Fill(data)
+}
+
+func renderPage(page vuego.Template, tpl, entry string) (string, error) {
 	var b bytes.Buffer
 	var err error
-	switch entry {
-	case "file":
-		files := map[string]string{"page.vuego": tpl, "comp.vuego": componentSource}
-		for name, src := range slotComponents {
-			files[name] = src
-		}
-		for name, src := range compFiles {
-			files[name] = src
-		}
-		fsys := memfs.FromMap(files)
-		err = vuego.NewFS(fsys, vuego.WithComponents()).Load("page.vuego").Fill(data).Render(context.Background(), &b)
-	default:
-		err = vuego.New().Fill(data).RenderString(context.Background(), &b, tpl)
+	if entry == "file" {
+		err = page.Render(context.Background(), &b)
+	} else {
+		err = page.RenderString(context.Background(), &b, tpl)
 	}
 	return b.String(), err
+}
+
+// render asks vuego for the output of tpl over data through one of two entry points, on a
+// fresh engine.
+func render(tpl string, data any, entry string) (string, error) {
+	return renderPage(pageOf(newEngine(tpl, entry), entry, data), tpl, entry)
+}
+
+// renderAfterFailure is the after-failure dimension: a failing variant of the page (failing, over
+// stale data) is rendered first - on another fresh engine ("fresh": process-wide pools), on the
+// same engine ("engine": engine caches and marks) or through RenderString on the very Template
+// object of the real call ("template": its own stack) - then the real call is made; twice.
+func renderAfterFailure(tpl string, data any, entry, after, failing string, stale any, verify func(out string, err error) error) error {
+	for rep := 0; rep < 2; rep++ {
+		engine := newEngine(tpl, entry)
+		var page vuego.Template
+		var ferr error
+		var sink bytes.Buffer
+		switch after {
+		case "fresh":
+			ferr = newEngine(tpl, entry).New().Fill(stale).RenderString(context.Background(), &sink, failing)
+			page = pageOf(engine, entry, data)
+		case "engine":
+			ferr = engine.New().Fill(stale).RenderString(context.Background(), &sink, failing)
+			page = pageOf(engine, entry, data)
+		case "template":
+			page = pageOf(engine, entry, data)
+			ferr = page.RenderString(context.Background(), &sink, failing)
+			if rep == 1 {
+				page = page.Fill(data) // the second repetition fills the data in again
+			}
+		default:
+			return fmt.Errorf("unknown after-failure variant %q", after)
+		}
+		if ferr == nil {
+			return fmt.Errorf("harness: the failing variant did not fail (it calls boom(), which returns an error): %s", failing)
+		}
+		if err := verify(renderPage(page, tpl, entry)); err != nil {
+			return fmt.Errorf("after a failing render (%s, repetition %d): %w", after, rep+1, err)
+		}
+	}
+	return nil
 }
 
 // check renders the case on a fresh engine and compares the marker outline with the model's.
@@ -102,25 +171,30 @@ func check(c Case) error {
 	if hasInclude(c.Nodes) {
 		entry = "file" // includes need a file system
 	}
-	out, err := render(src, c.data(), entry)
 	desc := func() string {
 		v, _ := json.Marshal(c.Vars)
 		l, _ := json.Marshal(c.Lists)
 		vl, _ := json.Marshal(c.VLists)
-		return fmt.Sprintf("template %s\nvars %s lists %s vlists %s form %q items %q", src, v, l, vl, c.Form, c.Items)
+		return fmt.Sprintf("template %s\nvars %s lists %s vlists %s form %q items %q after-failure %q", src, v, l, vl, c.Form, c.Items, c.After)
 	}
-	if err != nil {
-		return fmt.Errorf("render failed: %v\n%s", err, desc())
+	verify := func(out string, err error) error {
+		if err != nil {
+			return fmt.Errorf("render failed: %v\n%s", err, desc())
+		}
+		forest, err := hx.Frag(out, hx.Collapse)
+		if err != nil {
+			return fmt.Errorf("output does not parse: %v\n%s", err, desc())
+		}
+		got := observed(forest, st.ignore)
+		if w, g := "ROOT["+st.rootText+"] "+outline(want), "ROOT["+rootText(forest)+"] "+outline(got); w != g {
+			return fmt.Errorf("rendered markers differ from the chain model\nwant %s\ngot  %s\n%s\noutput %q", w, g, desc(), out)
+		}
+		return nil
 	}
-	forest, err := hx.Frag(out, hx.Collapse)
-	if err != nil {
-		return fmt.Errorf("output does not parse: %v\n%s", err, desc())
+	if c.After != "" {
+		return renderAfterFailure(src, c.data(), entry, c.After, c.failingSource(), c.staleData(), verify)
 	}
-	got := observed(forest, st.ignore)
-	if w, g := "ROOT["+st.rootText+"] "+outline(want), "ROOT["+rootText(forest)+"] "+outline(got); w != g {
-		return fmt.Errorf("rendered markers differ from the chain model\nwant %s\ngot  %s\n%s\noutput %q", w, g, desc(), out)
-	}
-	return nil
+	return verify(render(src, c.data(), entry))
 }
 
 func classify(c Case) (bool, []string) {
@@ -154,6 +228,8 @@ func classify(c Case) (bool, []string) {
 	add(st.itexts > 0, "interpolated-text-sibling")
 	add(st.textAfterChain, "text-directly-after-chain")
 	add(st.textAfterFalseIf, "text-directly-after-chain-with-falsy-v-if")
+	add(c.After != "", "after-failure:"+c.After)
+	add(st.guard, "condition-over-failing-function")
 	add(c.Form != "", "global-operands:"+c.Form)
 	add(c.Items != "" && (st.inLoop || st.slotted > 0), "loop-items:"+c.Items)
 	add(st.shadowed, "cond-on-loop-var-shadowing-global")
@@ -200,7 +276,7 @@ func replay(kind string, raw json.RawMessage) error {
 		return run.Decode(raw, checkPre)
 	case "table", "value", "cache":
 		return run.Decode(raw, checkTruth)
-	default: // "shape", "slot", "scope", "comp", "nest"
+	default: // "shape", "slot", "scope", "comp", "after", "nest"
 		return run.Decode(raw, check)
 	}
 }
@@ -340,6 +416,23 @@ func TestProp(t *testing.T) {
 	})
 	if lfailed == 0 {
 		rec.Exhaustive(fmt.Sprintf("slot content: chain (0..2 v-else-if, optional v-else; plain, one member with v-for, one template member, one later member with v-pre) supplied to a component that uses its slot once / twice per item of a list holding all 2^n assignments ascending / descending, conditions on the scoped slot prop (%d cases)", nl))
+	}
+
+	// ---- after-failure: conditions over a function that can fail, after a failing render of the same page
+	na, afailed := 0, 0
+	enumAfter(func(c Case) bool {
+		na++
+		if na%shards != shard {
+			return true
+		}
+		nt, cls := classify(c)
+		if !run.Each(rec, "after", c, nt, cls, check) {
+			afailed++
+		}
+		return afailed < 5
+	})
+	if afailed == 0 {
+		rec.Exhaustive(fmt.Sprintf("after-failure: chain v-if / v-else-if / v-else + v-show / :attr / :class probes over ordered pairs of {!nok(a) && b, !nok(a) || b, !a && b, a, !b, undefined} x 4 assignments x {fresh engine, same engine, same Template object} x both entry points, each after a failing render of the same page over stale data (%d cases)", na))
 	}
 
 	// ---- components written compactly with a <template> root, as include and as shorthand tag
